@@ -172,6 +172,7 @@ class World:
         dev_name: str | None = "dev",
         addresses=("10.0.0.1",),
         client: bool = False,
+        naddr: int = 1,
     ) -> None:
         import aiohappyeyeballs
 
@@ -183,6 +184,7 @@ class World:
         self.loop = simloop.new_loop()
         self.hr = hr
         self.aiohe = aiohappyeyeballs
+        self.naddr = naddr
         self.noise = noise
         self.psk = self.rng.randbytes(32) if noise else None
         self.dev_name = dev_name
@@ -279,7 +281,7 @@ class World:
     def default_addrs(self):
         hr = self.hr
         return [hr.AddrInfo(family=_socket.AF_INET, type=_socket.SOCK_STREAM, proto=_socket.IPPROTO_TCP,
-                            sockaddr=hr.IPv4Sockaddr(address="10.0.0.1", port=6053))]
+                            sockaddr=hr.IPv4Sockaddr(address=f"10.0.0.{i + 1}", port=6053)) for i in range(self.naddr)]
 
     def pending(self, futs):
         for f in futs:
